@@ -3564,6 +3564,9 @@ impl<'ctxt, R: ImportResolver, C: Cache> VirtualMachine<'ctxt, R, C> {
                     tail_closurized,
                     fields,
                 )));
+                // A record with a sealed tail can't be considered frozen anymore: freezing (and
+                // everything built on it) must go through the sealed tail guard.
+                r.attrs.frozen = false;
 
                 Ok(Closure {
                     value: arg3,
